@@ -656,6 +656,12 @@ def r03_15(run, model):
     run.floor("operator arms of the typer", n, 3)
 
 
+RECONVERSION_LEDGER = {
+    "typecheck_fn": "converts the signature of a function again to check its body; the same signature was validated by define_function",
+    "typecheck_impl_block": "converts the signatures of impl methods again to check their bodies; validated by define_trait_impl / define_inherent_impl",
+}
+
+
 def r03_16(run, model):
     run.rule("R03.16", "every type the user writes inside a body is validated like the types of a signature: wherever the expression checker "
                        "converts an annotation (`Ty::from_hir` in typer/check.rs) the same function hands the result to validate_ty (unknown "
@@ -675,6 +681,26 @@ def r03_16(run, model):
                    "validate_ty is applied in the converting function" if validates else "the converted annotation is never validated",
                    witness="let v: Vec[Nope] = vec_new(); is accepted and emits []Nope; let m: Maybe[Maybe[int32, int32]] = None; panics in mono")
     run.floor("annotation conversions in the expression checker", n, 1)
+    # the declaration layer: every function of typer/toplevel.rs that converts a written type validates it too
+    TOP = "crates/compiler/src/typer/toplevel.rs"
+    m = 0
+    for f in model.fns(TOP):
+        if f.body is None:
+            continue
+        convs = [c for c in S.walk(f.body) if c["k"] == "Call" and (c["func"].get("segs") or [])[-2:] == ["Ty", "from_hir"]]
+        if not convs:
+            continue
+        m += 1
+        validates = any(True for _ in S.calls(f.body, "validate_ty"))
+        led = RECONVERSION_LEDGER.get(f.name)
+        if led and not validates:
+            run.ob("R03.16", f"{f.name}|types written in the declaration are validated", True, site(TOP, convs[0]["sp"]), f"ledger: {led}")
+            continue
+        run.ob("R03.16", f"{f.name}|types written in the declaration are validated", validates, site(TOP, convs[0]["sp"]),
+               f"{len(convs)} conversion(s) with Ty::from_hir; validate_ty in the same function: {validates}",
+               witness="trait Codec { fn encode(Self) -> Bytes; fn decode(Self, Vec[Chunk], dyn Reader) -> int32; } with none of the three names "
+                       "declared is accepted by run, check and build; the dangling names are exported in the interface")
+    run.floor("declaration functions that convert written types", m, 5)
 
 
 def strip_callee(c):
@@ -703,13 +729,37 @@ def r03_17(run, model):
             continue
         if preds and any(True for _ in S.calls(g.body, *preds)) and any(c["k"] == "MethodCall" and c["method"] == "push" for c in S.walk(g.body)):
             checkers.add(g.name)
-    for name in ("define_function", "define_inherent_impl"):
+    for name in ("define_function", "define_inherent_impl", "define_trait_impl"):
         f = model.fn(name, TOP)
         ok = name in checkers or (bool(checkers) and any(True for _ in S.calls(f.body, *checkers)))
         run.ob("R03.17", f"{name}|every declared type parameter must occur in the signature", ok, site(TOP, f.node["sp"]),
                f"type-mention predicates: {sorted(preds) or 'none'}; functions reporting an undetermined parameter: {sorted(checkers) or 'none'}",
                witness="fn f[T](x: int32) -> int32 { let v: Vec[T] = vec_new(); vec_len(v) + x } is accepted; Mono keeps `Vec[T]` and the Go "
                        "output declares `var v []T` with T undefined")
+
+
+def r03_17b(run, model):
+    """the impl's own type parameters are checked too: the generics handed to the checker in define_inherent_impl include impl_block.generics"""
+    from rules import c07
+    TOP = "crates/compiler/src/typer/toplevel.rs"
+    f = model.fn("define_inherent_impl", TOP)
+    calls = [c for c in S.walk(f.body) if c["k"] == "Call" and re.search(r"undetermined|unused_type_param|type_params", S.callee_name(c) or "") and len(c["args"]) >= 2]
+    if not calls:
+        raise AnalysisIncomplete("define_inherent_impl: call of the type-parameter checker not found")
+    ok = False
+    detail = ""
+    for c in calls:
+        for a in c["args"]:
+            chain = [S.norm_ws(run.facts.text(TOP, a["sp"]))]
+            for i in S.idents(a):
+                chain += c07._origin_chain(run, f, TOP, c, i, depth=2)
+            t = " <- ".join(chain)
+            if "impl_block.generics" in t:
+                ok = True
+                detail = t[:100]
+    run.ob("R03.17", "define_inherent_impl|the impl's own type parameters are checked as well", ok, site(TOP, calls[0]["sp"]),
+           detail or "the checker is given the method's generics only",
+           witness="impl[T] Box[T] { fn mk() -> int32 { let x: Option[T] = None; .. } }: Box::mk() can never fix T; Mono keeps Option__T")
 
 
 def r03_18(run, model):
@@ -856,6 +906,7 @@ def run(run, model):
     run.try_rule(r03_15, model)
     run.try_rule(r03_16, model)
     run.try_rule(r03_17, model)
+    run.try_rule(r03_17b, model)
     run.try_rule(r03_18, model)
     run.try_rule(r03_19, model)
     run.try_rule(r03_20, model)
